@@ -38,8 +38,8 @@ LEVEL_TEXT = ("Proved in Lean 4 about the executable model the driver runs (AslM
               "in harness and model), with no hypothesis on the history, every call result and every handle's (elements, rc()) equal "
               "the reference semantics 'handles -> shared sequences' and no access leaves live storage (simulation with block-id "
               "renaming, rc = number of handles, no dangling handle); array_refines_seq_partial - the same for the unguarded run under "
-              "the hypothesis that no such operation occurs; quicksort_total / quicksort_sorted_perm / driver_orders_strict_total / "
-              "sort_spec - the transcribed Hoare quicksort never indexes outside its sequence, terminates, and sort()/sort(desc) "
+              "the hypothesis that no such operation occurs; quicksort_total / quicksort_sorted_perm / quicksort_stack_depth / driver_orders_strict_total / "
+              "sort_spec - the transcribed Hoare quicksort never indexes outside its sequence, terminates, nests at most log2(n) calls (code after dff9640), and sort()/sort(desc) "
               "return the sorted permutation for int, the counted type and String; (3) lifecycle - in every state the driver reaches "
               "live objects = total length of live blocks, rc = number of handles >= 1, and with the last handle gone no block and no "
               "object remains; clone_independent_history / clone_independent_model - a clone shows the cloned elements after ANY later "
@@ -48,11 +48,11 @@ LEVEL_TEXT = ("Proved in Lean 4 about the executable model the driver runs (AslM
               "run by the correspondence check (real Array/Stack/Queue of int, String and a counted heap-payload type under ASan/LSan; "
               "all six handles' elements, rc() and cap() compared after every operation) and an independent python reference.")
 LEVEL_NOTE = ("Recursive element type (struct Node { int v; Array<Node> kids; }: a = a[j].kids, a.append(a[j].kids), a.copy(a[j].kids), "
-              "repaired by 46697f8 / 8a65fa2): NOT in the proved model - these histories (prefix na) are compared by K only, against a "
+              "converting a = a[j].ints; repaired by 46697f8 / 8a65fa2 / 752cb8b): NOT in the proved model - these histories (prefix na) are compared by K only, against a "
               "reference-level Lean model with explicit reference counts (AslModel/ArrayNested.lean, no theorems), and operations that may "
               "grow a block are left out whenever the block is shared at all. Known finding shared-growth: operations that would increase the capacity of a block whose rc > 1 are excluded (left out "
               "by harness and model; the theorems are about exactly those runs). Not covered by model or harness: converting "
-              "constructor / operator=(Array<K>), operator=(Var), initializer-list constructor/assignment/append, map / map_ / with, "
+              "constructor (operator=(Array<K>) only in the Array<Node> histories), operator=(Var), initializer-list constructor/assignment/append, map / map_ / with, "
               "operator< of arrays, join, deprecated destroy()/ptr conversions, shuffle. sortBy: in bounds, terminating, permutation proved; sortedness only where the key order is strict total on the "
               "elements (int, counted), String keys (length) with ties are compared by K only. sort is modelled on the element sequence "
               "(reads/assignments), not on cells: the pivot copy and the swap temporaries of quicksort never touch the model's live "
@@ -709,10 +709,24 @@ def gen_nested(rng, nops):
         w = rng.random()
         h = rng.randrange(3) if rng.random() < 0.8 else rng.randrange(NS)
         j = rng.randrange(1000)
-        if w < 0.25:
+        if rng.random() < 0.06:
+            # a member array of an element grows to several items and is then assigned / appended / copied to its owner
+            jj = rng.choice([0, 0, 1, j])
+            if rng.random() < 0.5:
+                lines.append("na app %d %d" % (h, rng.randrange(-3, 40)))
+            kind = rng.choice(["asgi", "asgi", "asgk", "apndk", "copyk"])
+            for _ in range(rng.randrange(2, 7)):
+                lines.append(("na iapp %d %d %d" if kind == "asgi" else "na kapp %d %d %d") % (h, jj, rng.randrange(-3, 40)))
+            lines.append("na %s %d %d" % (kind, h, jj))
+            continue
+        if w < 0.22:
             lines.append("na app %d %d" % (h, rng.randrange(-3, 40)))
-        elif w < 0.50:
+        elif w < 0.40:
             lines.append("na kapp %d %d %d" % (h, j, rng.randrange(-3, 40)))
+        elif w < 0.46:
+            lines.append("na iapp %d %d %d" % (h, rng.choice([0, 0, j]), rng.randrange(-3, 40)))
+        elif w < 0.50:
+            lines.append("na asgi %d %d" % (h, rng.choice([0, 0, j])))
         elif w < 0.60:
             lines.append("na apndk %d %d" % (h, j))
         elif w < 0.70:
@@ -763,7 +777,7 @@ EXHAUSTIVE = {"quick": "all sequences of length <= 3 over the 9-op alphabet %s o
               "thorough": "all sequences of length <= 5 over the 9-op alphabet %s on Array<Counted> and Array<String>" % ALPHABET}
 
 GROW = ("app", "ins", "appo", "inso", "insx", "push", "put", "apnd", "appp", "kapp")
-MID = ("ins", "inso", "insx", "rem", "remone", "remif", "qget", "apndk", "copyk", "asgk")
+MID = ("ins", "inso", "insx", "rem", "remone", "remif", "qget", "apndk", "copyk", "asgk", "asgi")
 
 
 def nontrivial(case):
